@@ -137,17 +137,18 @@ fn binop_driver(t: &Tier, m: &mut Matrix, sink: &mut Sink, ops: &[&'static str],
     // a few wide cases of the expensive operators: multi-word products / quotients of 128-bit words
     // (u128::wmul high parts only matter beyond 128 bits), carries across every word boundary
     if !heavy.is_empty() {
-        let wide_lens = [129usize, 130, 191, 192, 193, 255, 256, 257];
-        for i in 0..t.q(36, 900) {
+        let wide_lens = [129usize, 130, 191, 192, 193, 255, 256, 257, 50, 63, 64, 100, 127, 128, 385, 448, 511, 512];
+        for i in 0..t.q(72, 900) {
             let n = wide_lens[i % wide_lens.len()];
-            let ylen = *rng.pick(&[n, 128, 64, 129, 256, 200]);
+            let ylen = *rng.pick(&[n, 128, 64, 129, 256, 200, n, n / 2 + 1]);
             let shape = |rng: &mut Rng, len: usize, k: usize| -> Bits {
-                match k % 6 {
+                match k % 7 {
                     0 => ones(len),
                     1 => (0..len).map(|i| (i % 2) as u8).collect(),
                     2 => (0..len).map(|i| (i < 128) as u8).collect(),
                     3 => (0..len).map(|i| (i >= 64) as u8).collect(),
                     4 => (0..len).map(|i| (i % 64 == 63 || i % 64 == 0) as u8).collect(),
+                    5 => (0..len).map(|i| (i % 16 != 7) as u8).collect(),
                     _ => random_bits(rng, len),
                 }
             };
@@ -156,6 +157,9 @@ fn binop_driver(t: &Tier, m: &mut Matrix, sink: &mut Sink, ops: &[&'static str],
             let op = heavy[i % heavy.len()];
             let is_div = matches!(op, "div" | "rem" | "div_rem");
             if is_div {
+                if n > 257 {
+                    continue;
+                }
                 if t.quick && i % 3 != 0 {
                     continue; // restoring division of 256-bit operands is the slowest thing TLC evaluates
                 }
@@ -436,6 +440,10 @@ pub fn drive_c13(t: &Tier, m: &mut Matrix, sink: &mut Sink) {
             let a = Args { e: Some(if k % 2 == 0 { 'L' } else { 'B' }), n: Some(k as u128), ..Default::default() };
             sink.emit(m.run(&Case::new("write_fail", x.clone()).a(a)));
         }
+        for chunk in [1usize, 3, 7] {
+            let a = Args { e: Some(if chunk % 2 == 0 { 'L' } else { 'B' }), n: Some(chunk as u128), ..Default::default() };
+            sink.emit(m.run(&Case::new("write_chunk", x.clone()).a(a)));
+        }
     }
     // from_bytes: byte strings of 0..k bytes
     for nb in (0..t.q(20, 36)).chain([24, 32, 33]) {
@@ -447,6 +455,14 @@ pub fn drive_c13(t: &Tier, m: &mut Matrix, sink: &mut Sink) {
                     sink.emit(m.run(&Case::new("from_bytes", vec![]).a(a).capsens()));
                 }
             }
+        }
+    }
+    // absurd lengths must be refused by a fixed vector (no arithmetic on the length before the capacity test)
+    for n in [usize::MAX, usize::MAX - 1, usize::MAX - 6, usize::MAX - 7, usize::MAX - 8, usize::MAX / 2 + 1, 1usize << 32] {
+        for e in ['L', 'B'] {
+            let a = Args { e: Some(e), bytes: Some(vec![0xFF; 4]), n: Some(n as u128), ..Default::default() };
+            let fixed: Vec<Kind> = ALL_KINDS.iter().copied().filter(|k| k.is_fixed()).collect();
+            sink.emit(m.run(&Case::new("read", vec![]).a(a).capsens().xk(fixed)));
         }
     }
     // read: streams with surplus set bits in the top byte, short input, extra input
